@@ -730,6 +730,9 @@ EXTRA_EXAMPLES = [
     "f(" + "\n" * 127 + "1)", "f(" + "\n" * 128 + "1)", "f(" + "\n" * 129 + "1)",
     "x = 1" + "\n" * 128 + "y = 2", "x = 1" + "\n" * 254 + "y = 2", "x = 1" + "\n" * 255 + "y=2", "x = 1" + "\n" * 256 + "y=2",
     "x = 1" + "\n" * 381 + "y=2", "x = 1" + "\n" * 382 + "y=2",
+    # <=3.9 peephole tuple folding with a constant index >= 256: line entry inside an instruction
+    ";".join("x=%d" % (1000 + i) for i in range(260)) + "\ndef f(a=1,\n b=2): pass\n",
+    ";".join("x=%d" % (1000 + i) for i in range(260)) + "\ndef f(a=1,\n b=2,\n c=3): pass\ny = (a,\n b)\n",
 ]
 
 
